@@ -251,6 +251,8 @@ def pairs_from_result(res):
     if isinstance(res, list) and len(res) and isinstance(res[0], np.ndarray):
         return [(np.asarray(k), np.asarray(k)) for k in res], "flat"
     if isinstance(res, list) and len(res) and isinstance(res[0], (list, tuple)):
+        if len(res) == 1 and len(res[0]) > 2:
+            return [(np.asarray(k), np.asarray(k)) for k in res[0]], "row"
         if all(len(x) == 2 for x in res):
             return [(np.asarray(x[0]), np.asarray(x[1])) for x in res], "pairs"
         if all(len(x) == 1 for x in res):
